@@ -26,6 +26,9 @@ K3_CALLS = (
     "alloc::string::String::drain", "alloc::string::String::split_off", "core::str::<impl str>::split_at",
     "core::slice::<impl [T]>::swap", "core::slice::<impl [T]>::split_at", "core::slice::<impl [T]>::copy_from_slice", "core::slice::<impl [T]>::rotate_left",
     "core::slice::<impl [T]>::rotate_right", "core::char::from_digit",
+    # from_str_radix panics when the radix is outside 2..=36
+    "core::num::<impl i32>::from_str_radix", "core::num::<impl i128>::from_str_radix", "core::num::<impl u8>::from_str_radix", "core::num::<impl i64>::from_str_radix",
+    "core::num::<impl u32>::from_str_radix", "core::num::<impl usize>::from_str_radix", "core::char::methods::<impl char>::to_digit", "core::char::methods::<impl char>::is_digit",
 )
 # not in K3: Vec/String::with_capacity, str::repeat, <[T]>::repeat -- they panic only on capacity overflow / allocation failure (memory exhaustion is not
 # one of the property's defined dynamic failures)
@@ -317,6 +320,32 @@ def run_c17(F, rep, ctx):
             rep.ob("C17.panic", "%s in %s: operands are not program-valued" % (s["what"], mir.short(f.path)), "exempt", "interpreter-internal quantity", s["span"],
                    fn=f.path, key="C17.panic|internal|%s|%s" % (mir.short(top), s["what"]))
             continue
+        if "from_str_radix" in s["what"] and s.get("idx") is not None:
+            # the radix is one of a few constants of the arm (`(text, 2)` / `(text, 10)`), all inside 2..=36
+            import rules as _r
+            tp = list(_r.trace_paths(f, s["idx"]))
+            vals = []
+            okc = bool(tp)
+            for o, path in tp:
+                k = None
+                if o and o[0] == "const" and str(o[1]).lstrip("-").isdigit():
+                    k = int(o[1])
+                elif o and o[0] == "agg" and len(path) == 1 and str(path[0]).isdigit():
+                    try:
+                        st = f.blocks[o[1]]["s"][o[2]]
+                        c_ = op_const(st["rv"]["ops"][int(path[0])])
+                        if c_ is not None and "int" in c_:
+                            k = int(c_["int"])
+                    except (KeyError, IndexError, ValueError):
+                        k = None
+                if k is None:
+                    okc = False
+                else:
+                    vals.append(k)
+            if okc and all(2 <= v <= 36 for v in vals):
+                rep.ob("C17.panic", "%s in %s: the radix is a constant between 2 and 36" % (s["what"], mir.short(f.path)), "ok", "radix values %s" % sorted(set(vals)), s["span"],
+                       fn=f.path, key="C17.panic|guarded|%s|%s|const" % (mir.short(top), s["what"]))
+                continue
         if s["guarded"]:
             rep.ob("C17.panic", "%s in %s: guarded by a dominating range comparison" % (s["what"], mir.short(f.path)), "ok", s["taint"], s["span"], fn=f.path,
                    key="C17.panic|guarded|%s|%s" % (mir.short(top), s["what"]))
